@@ -102,6 +102,13 @@ def gen_tdev(rng, tier):
       te.append(dy(rng, 0, 30, 1))
     else:
       te.append(dy(rng, -12, 30, 1))
+  q2 = rng.random()
+  if q2 < 0.25:      # non-dyadic decimals: a rounding / precision-reducing edit of the stored temperatures must show
+    te = [x + Fraction(rng.choice([1, 7, 13, 37, 49, 73, 99, 123]), 1000)*rng.choice([1, -1]) if x != 0 else x for x in te]
+    if p['t_init'] != '0':
+      p['t_init'] = fs(F(p['t_init']) + Fraction(rng.choice([3, 17, 41, 77]), 1000))
+  elif q2 < 0.32:    # magnitudes far outside any plausible climate: the recurrence is stated for any real external temperature
+    te = [x*rng.choice([25, 40, -30]) if rng.random() < 0.5 else x for x in te]
   p['t_external'] = [fs(x) for x in te]
   r = mixed_flow(rng, lb, hb, oob=0.1 if rng.random() < 0.2 else 0.0)
   return {'kind': 'tdev', 'dev': d, 'r': [fs(x) for x in r], '_shape': rng.choice(['flat', 'flat', 'row'])}
